@@ -287,6 +287,7 @@ def builtin (f : String) (args : List Val) : Option Val :=
       | _, _, _ => Option.none
   | "all", [v] => v.elems?.map (fun xs => .bool (xs.all (fun x => x.truthy == some true)))
   | "reversed", [v] => v.elems?.map (fun xs => .list xs.reverse)
+  | "set", [] => some (.list [])                -- the empty set of a function that only adds to it and asks membership
   | "dict", [] => some (.list [])               -- the empty mapping (its only use in the fragment: membership, hooks for lookups)
   | "tqdm", v :: _ => some v                    -- progress bar: the iterable itself
   | "np.asarray", [v] => v.elems?.map .arr
